@@ -35,6 +35,24 @@ FILM = (b'"\x00' + b'IA\x04\x00TYPE    FILM'
         + b'\x00A\x04\x00MNEM    2   ' + b'EA\x04\x00GCOD    EEE ' + b'EA\x04\x00GDEC    ----' + b'EA\x04\x00DEST    PF2 ' + b'EA\x04\x00DSCA    D200')
 
 
+# TRAC strings: whole tracks, spans of tracks, and the left / right half of a track
+TRACS = [b'T1  ', b'T2  ', b'T3  ', b'T23 ', b'T12 ', b'LHT1', b'RHT1', b'LHT2', b'RHT2', b'LHT3', b'RHT3']
+
+
+def track_edges(cfg, trac):
+    """the edges a TRAC string stands for, from the edges of the WHOLE tracks T1, T2, T3 of the film (cfg.interpretTrac) by the
+    meaning of the notation: Tab spans from the left of a to the right of b, LH / RH is the left / right half of the track"""
+    def whole(n):
+        l_, r_ = cfg.interpretTrac(b'T%d  ' % n)[:2]
+        return float(l_.convert('in').value), float(r_.convert('in').value)
+    t = trac.strip()
+    if t[:2] in (b'LH', b'RH'):
+        l_, r_ = whole(int(t[3:4]))
+        return (l_, (l_ + r_) / 2.0) if t[:2] == b'LH' else ((l_ + r_) / 2.0, r_)
+    a, b = int(t[1:2]), int(t[-1:])
+    return whole(a)[0], whole(b)[1]
+
+
 def pres_bytes(curves):
     b = b'"\x00' + b'IA\x04\x00TYPE    PRES'
     for c in curves:
@@ -129,7 +147,7 @@ def exact_p(kind, lL, rL, v):
     return Fraction(p), Fraction(1)
 
 
-def curve_traces(ctx, events, source, case):
+def curve_traces(ctx, events, source, case, edges=None):
     """events: recorded plot events; source: outp name -> (xs, vals, null). Returns list of (trace, meta) per curve."""
     out = []
     cur_outp = None
@@ -165,6 +183,11 @@ def curve_traces(ctx, events, source, case):
             ctx.fail('curve plotted for output %r which the log pass does not have' % c['outp'], case, sig=dict(kind='unknown-output'))
             continue
         xs, vals, null = src
+        if edges is not None and key[1] < len(edges.get(c['outp'], [])):
+            want_e = edges[c['outp']][key[1]]
+            if abs(f['lP'] - want_e[0]) > 1e-6 or abs(f['rP'] - want_e[1]) > 1e-6:
+                ctx.fail('output %s curve %d is scaled into [%r, %r] inches, its TRAC names the track [%r, %r]' % (c['outp'], key[1], f['lP'], f['rP'], want_e[0], want_e[1]),
+                         case, sig=dict(kind='curve-not-in-its-track'))
         nonnull = [(x, v) for x, v in zip(xs, vals) if v != null]
         got_vals = [s[0]['val'] for s in c['steps']]
         if got_vals != [v for _, v in nonnull] and len(xs) > 1:
@@ -368,7 +391,7 @@ def run(ctx):
                     modes = [b'SHIF', b'WRAP', b'NB  ', b'X10 '] + ([b'GRAD', b'GRAD'] if min(le, re_) > 0 else [])
                     if forced_log:
                         modes = [b'GRAD']
-                    curves.append(dict(mnem=b'C%d%d ' % (oi, k), outp=o, trac=rng.choice([b'T1  ', b'T2  ', b'T3  ', b'T23 ', b'T12 ']), dest=film,
+                    curves.append(dict(mnem=b'C%d%d ' % (oi, k), outp=o, trac=rng.choice(TRACS), dest=film,
                                        mode=rng.choice(modes), le=le, re=re_))
             case.update(film=film.decode().strip(), curves=[dict(outp=c['outp'].decode(), trac=c['trac'].decode(), mode=c['mode'].decode(), le=c['le'], re=c['re']) for c in curves])
             try:
@@ -377,6 +400,19 @@ def run(ctx):
                 ctx.fail('PlotReadLIS raised %s: %s for %s' % (type(e).__name__, e, json.dumps(case)[:300]), case, sig=dict(kind='plot-config'))
                 continue
             film_id = Mnem.Mnem(film)
+            # "within its assigned track": the track a curve is scaled into is the one its TRAC string names
+            try:
+                cfg_ = plotter._filmCfg[film_id]
+                for c_ in curves:
+                    want_e = track_edges(cfg_, c_['trac'])
+                    got_ = cfg_.interpretTrac(c_['trac'])[:2]
+                    got_e = tuple(float(g_.convert('in').value) for g_ in got_)
+                    if any(abs(a_ - b_) > 1e-6 for a_, b_ in zip(got_e, want_e)):
+                        ctx.fail('track %s of film %s lies at %r inches; the whole tracks give %r' % (c_['trac'].decode(), film.decode().strip(), got_e, want_e),
+                                 case, sig=dict(kind='track-edges'))
+            except Exception as e:
+                ctx.fail('track geometry of %s raised %s: %s' % (json.dumps(case)[:300], type(e).__name__, e), case, sig=dict(kind='plot-config'))
+                continue
         else:
             uid = rng.choice(sorted(xml_formats)) if not ctx.quick else sorted(xml_formats)[pi % len(xml_formats)]
             names = rng.sample(xml_formats[uid], min(len(xml_formats[uid]), rng.randint(1, 3)))
@@ -423,7 +459,12 @@ def run(ctx):
                 ctx.fail('no SVG file written', case, sig=dict(kind='no-svg'))
             continue
         source = {o.decode().strip(): (xs, c, absent) for o, c in zip(outs, cols)}
-        trs, geom = curve_traces(ctx, events, source, case)
+        edges = None
+        if not use_xml:
+            edges = {}
+            for c_ in curves:
+                edges.setdefault(c_['outp'].decode().strip(), []).append(track_edges(plotter._filmCfg[film_id], c_['trac']))
+        trs, geom = curve_traces(ctx, events, source, case, edges)
         for tr, m in trs:
             traces.append(tr)
             meta.append(m)
